@@ -52,6 +52,12 @@ def run(ctx):
             ('v6hi', dict(arch_version=6, memory_list=HI_MEM)), ('v7hi', dict(arch_version=7, memory_list=HI_MEM))]
     extra = C.parallel(pushpop_task, [dict(name='pushpop-%d' % i, seed=ctx.seed + 700 + i, n=150 if q else 4000, modes='all',
                                            cfg=dict(arch_version=6 + i % 2)) for i in range(4)])
+    # SRS / RFE with write-back on every base register, LDM / STM (user registers) and LDM (exception return) executed from
+    # every mode towards every other mode, all banks holding distinct values (the banked SP / base is part of "write back the base")
+    from .c10 import bank_instr_task
+    extra += C.parallel(bank_instr_task, [dict(name='bank-%d' % i, seed=ctx.seed + 800 + i, n=200 if q else 5000,
+                                               ext=[(False, False), (True, False), (True, True)][i % 3]) for i in range(6)])
+
     def tags(g, e, v):
         return {'arch': g.cfg['arch_version'], 'enc': v['path'].split(':')[-1], 'gen': g.meta.get(e['id'], {}).get('gen'),
                 'sp_aligned': C.pre_sp(g, e) % 4 == 0}
@@ -59,7 +65,8 @@ def run(ctx):
                  configs=cfgs, extra_groups=extra, tags_of=tags)
     ctx.extra['rule'] = ('MC_LSM: lists x LDM/STM x IA/IB/DA/DB x W x base placement incl. wrap, PUSH;POP identity (quick: '
                          'structured lists, thorough: + every 29th of the 2^16 lists and all lists with <= 2 or >= 15 registers; LISTS = "all" exists but takes hours); conformance: random and structured register lists for '
-                         'ARM LDM/STM (4 modes), 16-bit PUSH/POP/LDM/STM, 32-bit LDM/STM, PUSH;POP programs')
+                         'ARM LDM/STM (4 modes), 16-bit PUSH/POP/LDM/STM, 32-bit LDM/STM, PUSH;POP programs; RFE / SRS with write-back, LDM/STM user '
+                         'registers and LDM exception return across banks from every mode')
 
 
 def replay(ctx, path):
